@@ -128,7 +128,7 @@ void make_items(const Options& o, std::vector<Item>& items)
                 Item it;
                 it.name = text(p);
                 it.body = [p] { body(p); };
-                it.bounds = hx::tier_bounds(o, 2, 3);
+                it.bounds = hx::tier_bounds(o, 3, 4);
                 it.bounds.S = thorough ? 2 : 1;
                 items.push_back(it);
             }
